@@ -386,6 +386,23 @@ theorem doInline_appends (total : Bool) (fns : List Fn) (st : St) (fi : Nat) (ar
   · simp only [hp, if_false] at r1 r2 r3 hst0 hst0h ⊢
     exact ⟨by rw [popScope_nodes, r1, hst0], by rw [popScope_handles, r2, r3, hst0h]⟩
 
+theorem promote_frame (st : St) (l : Lit) : (promote st l).1.cur = st.cur ∧ (promote st l).1.handles = st.handles := by
+  unfold promote
+  split
+  · exact ⟨rfl, rfl⟩
+  · simp [newValue, newValueK]
+
+theorem resolveArgs_frame : ∀ (a : List Arg) (st : St),
+    (resolveArgs st a).1.cur = st.cur ∧ (resolveArgs st a).1.handles = st.handles
+  | [], st => ⟨rfl, rfl⟩
+  | .ref _ :: r, st => by simp only [resolveArgs]; exact resolveArgs_frame r st
+  | .none :: r, st => by simp only [resolveArgs]; exact resolveArgs_frame r st
+  | .lit l :: r, st => by
+    simp only [resolveArgs]
+    obtain ⟨a1, a2⟩ := resolveArgs_frame r (promote st l).1
+    obtain ⟨b1, b2⟩ := promote_frame st l
+    exact ⟨a1.trans b1, a2.trans b2⟩
+
 /-! ## frame lemmas for evaluation -/
 
 theorem bindOuts_agree (L : Nat) : ∀ (os : List Nat) (vs : List α) (e1 e2 : Env α),
@@ -908,10 +925,8 @@ theorem sim_input (S : OpSem α) (fns : List Fn) (args : List α) (st : St) (r :
   | none => rfl
   | some i => exact hE i (h.bnd.handles i ho)
 
-/-- items of a subgraph-free trace (a `call_inline` with literal operands is covered as long as the builder
-    refuses it, `inlineAdapts = false`). -/
+/-- items of a subgraph-free trace. -/
 def simItem : Item → Bool
-  | .inline _ a _ _ _ => !inlineAdapts || a.all isRef
   | .beginSub _ _ => false
   | .endSub _ _ => false
   | _ => true
@@ -1170,6 +1185,62 @@ theorem Bnd.foldlAll (total : Bool) (fns : List Fn) : ∀ (tr : List Item) (st :
     simp only [List.foldl_cons]
     exact Bnd.foldlAll total fns r _ (Bnd.stepAll total fns st it h)
 
+/-- `doInline` on its success path, literal operands allowed: the clones are made in the state `ra.1` in which the
+    literal operands have been promoted. -/
+theorem doInline_appends_gen (total : Bool) (fns : List Fn) (st : St) (fi : Nat) (args : List Arg)
+    (outs : Option (List String)) (pfx : String) (as : List (String × AVal)) (f : Fn) (hf : fns[fi]? = some f)
+    (h1 : (!inlineAdapts && !args.all isRef) = false) (h2 : ¬ args.length > f.formals.length)
+    (h3 : outsMismatch outs f = false) :
+    (doInline total fns st fi args outs pfx as).cur.nodes = st.cur.nodes ++
+      (inlineClones total (resolveArgs (if pfx = "" then st else pushScope st pfx) args).1
+        (resolveFn (effectiveAttrs total f as) f)
+        (resolveArgs (if pfx = "" then st else pushScope st pfx) args).2).2.2 ∧
+    (doInline total fns st fi args outs pfx as).handles = st.handles ++ f.outputs.map (vmapGet
+      (inlineClones total (resolveArgs (if pfx = "" then st else pushScope st pfx) args).1
+        (resolveFn (effectiveAttrs total f as) f)
+        (resolveArgs (if pfx = "" then st else pushScope st pfx) args).2).2.1) ∧
+    (doInline total fns st fi args outs pfx as).cache
+      = (resolveArgs (if pfx = "" then st else pushScope st pfx) args).1.cache ∧
+    (doInline total fns st fi args outs pfx as).inits
+      = (resolveArgs (if pfx = "" then st else pushScope st pfx) args).1.inits ∧
+    (doInline total fns st fi args outs pfx as).cur.inputs = st.cur.inputs ∧
+    (resolveArgs (if pfx = "" then st else pushScope st pfx) args).1.L ≤ (doInline total fns st fi args outs pfx as).L := by
+  have hs0 : ∀ s : St, (if pfx = "" then s else pushScope s pfx).cur.nodes = s.cur.nodes ∧
+      (if pfx = "" then s else pushScope s pfx).handles = s.handles ∧
+      (if pfx = "" then s else pushScope s pfx).cur.inputs = s.cur.inputs := by
+    intro s; split <;> simp [pushScope]
+  obtain ⟨z1, z2, z3⟩ := hs0 st
+  unfold doInline
+  simp only [hf, h1, Bool.false_eq_true, if_false, h2, h3]
+  generalize (if pfx = "" then st else pushScope st pfx) = st0 at z1 z2 z3 ⊢
+  obtain ⟨f1, f2⟩ := resolveArgs_frame args st0
+  generalize hra : resolveArgs st0 args = ra at f1 f2 ⊢
+  obtain ⟨r1, r2, r3⟩ := inlineRun_spec total ra.1 (resolveFn (effectiveAttrs total f as) f) ra.2
+    (outs.map (fun o => o.map (qualifyValue st.cur)))
+  obtain ⟨u1, u2, u3, u4, u5, u6, u7⟩ := inlineRun_but total ra.1 (resolveFn (effectiveAttrs total f as) f) ra.2
+    (outs.map (fun o => o.map (qualifyValue st.cur)))
+  have hcl : (inlineClones total ra.1 (resolveFn (effectiveAttrs total f as) f) ra.2).1.cache = ra.1.cache ∧
+      (inlineClones total ra.1 (resolveFn (effectiveAttrs total f as) f) ra.2).1.inits = ra.1.inits ∧
+      (inlineClones total ra.1 (resolveFn (effectiveAttrs total f as) f) ra.2).1.cur = ra.1.cur ∧
+      ra.1.L ≤ (inlineClones total ra.1 (resolveFn (effectiveAttrs total f as) f) ra.2).1.L := by
+    unfold inlineClones
+    exact ⟨cloneNodes_cache _ _ _ _, cloneNodes_inits _ _ _ _, cloneNodes_csd _ _ _ _, cloneNodes_L_le _ _ _ _⟩
+  obtain ⟨k1, k2, k3, k4⟩ := hcl
+  have hout : (resolveFn (effectiveAttrs total f as) f).outputs = f.outputs := rfl
+  rw [hout] at r3
+  have hpop : ∀ s : St, SameBut s (if pfx = "" then s else popScope s) ∧
+      (if pfx = "" then s else popScope s).cur.nodes = s.cur.nodes := by
+    intro s; split
+    · exact ⟨SameBut.refl s, rfl⟩
+    · exact ⟨popScope_but s, popScope_nodes s⟩
+  obtain ⟨⟨v1, v2, v3, v4, v5, v6, v7⟩, v8⟩ := hpop
+    (inlineRun total ra.1 (resolveFn (effectiveAttrs total f as) f) ra.2
+      (outs.map (fun o => o.map (qualifyValue st.cur)))).1
+  refine ⟨by rw [v8, r1, f1, z1], by rw [v2, r2, r3, f2, z2], by rw [v3, u3, k1], by rw [v4, u4, k2],
+    by rw [v5, u5, k3, f1, z3], ?_⟩
+  simp only [St.L] at v1 u1 k4 ⊢
+  omega
+
 /-! ## the simulation through `call_inline` -/
 
 theorem cloneNodes_outs_ge (np : String) : ∀ (nodes : List FNode) (st : St) (m : VMap),
@@ -1246,41 +1317,85 @@ theorem doInline_fields (total : Bool) (fns : List Fn) (st : St) (fi : Nat) (arg
   simp only [St.L] at v1 u1 k4 a1 ⊢
   omega
 
+theorem args_vals_ok (S : OpSem α) (st : St) (r : RSt α) (E Eo : Env α) (cache' : List (CKey × Nat))
+    (hv : st.handles.map (fun o => o.bind E) = r.henv) (hbnd : ∀ i, some i ∈ st.handles → i < st.L)
+    (hA : ∀ i, i < st.L → Eo i = E i) (hlit : ∀ k id, (k, id) ∈ cache' → Eo id = some (S.lit k)) :
+    ∀ (a : List Arg) (ins : List (Option Nat)), List.Forall₂ (ArgOK st.handles cache') a ins →
+      ins.map (fun i => i.bind Eo) = a.map (argVal S r.henv) := by
+  intro a ins hins
+  induction hins with
+  | nil => rfl
+  | @cons x o xs os hx _ ih =>
+    simp only [List.map_cons, List.cons.injEq]
+    refine ⟨?_, ih⟩
+    cases x with
+    | ref hd =>
+      simp only [ArgOK] at hx
+      simp only [argVal, ← hv, getD_map_bind, ← hx]
+      cases o with
+      | none => rfl
+      | some i =>
+        simp only [Option.bind_some]
+        exact hA i (hbnd i (getD_mem hx.symm))
+    | none => simp only [ArgOK] at hx; simp [hx, argVal]
+    | lit l =>
+      obtain ⟨id, rfl, hm⟩ := hx
+      simp only [Option.bind_some, argVal]
+      exact hlit _ id hm
+
 theorem sim_inline (S : OpSem α) (fns : List Fn) (args : List α) (st : St) (r : RSt α)
     (fi : Nat) (a : List Arg) (o : Option (List String)) (p : String) (as : List (String × AVal))
-    (hssa : ∀ f ∈ fns, ∀ n ∈ f.nodes, n.outs.Nodup) (hlit : inlineAdapts = true → a.all isRef = true)
-    (h : Sim S args st r) :
+    (hssa : ∀ f ∈ fns, ∀ n ∈ f.nodes, n.outs.Nodup) (h : Sim S args st r) :
     Sim S args (doInline true fns st fi a o p as) (replayStep S fns args r (.inline fi a o p as)) := by
   cases hf : fns[fi]? with
   | none =>
     simp only [doInline, replayStep, hf]
     exact sim_fail S args st r _ h
   | some f =>
-    by_cases h1 : a.all isRef = true
-    · by_cases h2 : a.length > f.formals.length
-      · simp only [doInline, replayStep, hf, h1, h2, Bool.not_true, Bool.false_eq_true, if_false, if_true,
+    cases h1 : (!inlineAdapts && !a.all isRef) with
+    | true =>
+      simp only [doInline, replayStep, hf, h1, if_true, Bool.true_or]
+      exact sim_fail S args st r _ h
+    | false =>
+      by_cases h2 : a.length > f.formals.length
+      · simp only [doInline, replayStep, hf, h1, h2, Bool.false_eq_true, if_false, if_true,
           decide_true, Bool.true_or, Bool.or_true, Bool.false_or]
         exact sim_fail S args st r _ h
       · cases h3 : outsMismatch o f with
         | true =>
-          simp only [doInline, replayStep, hf, h1, h2, h3, Bool.not_true, Bool.false_eq_true, if_false, if_true,
+          simp only [doInline, replayStep, hf, h1, h2, h3, Bool.false_eq_true, if_false, if_true,
             decide_false, Bool.or_true, Bool.false_or]
           exact sim_fail S args st r _ h
         | false =>
           have hfm : f ∈ fns := List.mem_of_getElem? hf
-          obtain ⟨n1, n2⟩ := doInline_appends true fns st fi a o p as f hf h1 h2 h3
-          obtain ⟨q1, q2, q3, q4⟩ := doInline_fields true fns st fi a o p as f hf h1 h2 h3
+          obtain ⟨n1, n2, q1, q2, q3, q4⟩ := doInline_appends_gen true fns st fi a o p as f hf h1 h2 h3
           have hb := Bnd.doInline true fns st fi a o p as h.bnd
           have hrep : replayStep S fns args r (.inline fi a o p as)
               = ⟨r.henv ++ callMeaning S f as (a.map (argVal S r.henv)), r.nin⟩ := by
             simp [replayStep, hf, h1, h2, h3]
           rw [hrep]
-          -- the builder the body is inlined into
+          -- the builder the body is inlined into (scope pushed): same values, cache and nodes as `st`
           have hs0 : ∀ s : St, (if p = "" then s else pushScope s p).handles = s.handles ∧
-              (if p = "" then s else pushScope s p).L = s.L := by
+              (if p = "" then s else pushScope s p).L = s.L ∧
+              (if p = "" then s else pushScope s p).cache = s.cache ∧
+              (if p = "" then s else pushScope s p).inits = s.inits := by
             intro s; split <;> simp [pushScope, St.L]
-          obtain ⟨z1, z2⟩ := hs0 st
-          generalize hst0 : (if p = "" then st else pushScope st p) = st0 at n1 n2 z1 z2
+          obtain ⟨z1, z2, z3, z4⟩ := hs0 st
+          have h0 : Bnd (if p = "" then st else pushScope st p) := by
+            split
+            · exact h.bnd
+            · exact h.bnd.curMeta rfl rfl rfl rfl rfl rfl rfl rfl
+          generalize hst0 : (if p = "" then st else pushScope st p) = st0 at n1 n2 q1 q2 q4 z1 z2 z3 z4 h0
+          have hcok0 : CacheOK st0 := ⟨z3 ▸ h.cok.nodup, by rw [z4, z3]; exact h.cok.inits,
+            fun e he => by rw [z2]; exact h.cok.bound e (z3 ▸ he)⟩
+          obtain ⟨cq1, ⟨ext, cq2, cq3⟩, cq4, _⟩ := resolveArgs_sem a st0 hcok0
+          obtain ⟨w1, _, _, w4, _, w6⟩ := resolveArgs_spec a st0 h0
+          have hact : ∀ i, some i ∈ (resolveArgs st0 a).2 → i < (resolveArgs st0 a).1.L := by
+            intro i hi
+            rcases w6 i hi with x | x
+            · exact w1.inits i x
+            · exact Nat.lt_of_lt_of_le (h0.handles i x) w4
+          generalize hra : resolveArgs st0 a = ra at n1 n2 q1 q2 q4 cq1 cq2 cq4 w4 hact
           generalize hf' : resolveFn (effectiveAttrs true f as) f = f' at n1 n2
           have hfo : f'.outputs = f.outputs := by rw [← hf']; rfl
           have hssa' : ∀ n ∈ f'.nodes, n.outs.Nodup := by
@@ -1289,57 +1404,68 @@ theorem sim_inline (S : OpSem α) (fns : List Fn) (args : List α) (st : St) (r 
             simp only [resolveFn, List.mem_map] at hn
             obtain ⟨n0, hn0, rfl⟩ := hn
             exact hssa f hfm n0 hn0
-          have hact : ∀ i, some i ∈ (resolveArgs st0 a).2 → i < st0.L := by
+          -- old nodes in the base environment with the promoted literals
+          have hold : ∀ k ∈ st.cur.nodes, NodeOK st.L st.inits k := h.bnd.nodes st.cur (by simp [St.frames])
+          have hcache' : (doInline true fns st fi a o p as).cache = st.cache ++ ext := by rw [q1, cq2, z3]
+          have hA : ∀ i, i < st.L →
+              evalNodes S (baseEnv S (doInline true fns st fi a o p as) args) st.cur.nodes i = evalGraph S st args i := by
             intro i hi
-            have : ∀ (l : List Arg) (s : St), l.all isRef = true → ∀ j, some j ∈ (resolveArgs s l).2 →
-                some j ∈ s.handles := by
-              intro l
-              induction l with
-              | nil => intro s _ j hj; simp [resolveArgs] at hj
-              | cons x xs ih =>
-                intro s hl j hj
-                cases x with
-                | ref hd =>
-                  simp only [List.all_cons, isRef, Bool.true_and] at hl
-                  simp only [resolveArgs, List.mem_cons] at hj
-                  rcases hj with hj | hj
-                  · exact getD_mem hj.symm
-                  · exact ih s hl j hj
-                | none =>
-                  simp only [List.all_cons, isRef, Bool.true_and] at hl
-                  simp only [resolveArgs, List.mem_cons, reduceCtorEq, false_or] at hj
-                  exact ih s hl j hj
-                | lit l => simp [isRef] at hl
-            have hm := this a st0 h1 i hi
-            rw [z1] at hm
-            rw [z2]
-            exact h.bnd.handles i hm
+            unfold evalGraph
+            apply evalNodes_agree S st.L _ _ _ _ (fun k hk j hj => ((hold k hk).2 j hj).1) i hi
+            intro j hj
+            unfold baseEnv
+            rw [hcache', q3]
+            exact baseOf_cache_exts S _ _ _ _ j (fun e he => by have := cq3 e he; rw [z2] at this; omega)
+          have hcok' : CacheOK (doInline true fns st fi a o p as) := cq1.grow q1 q2 q4
+          have hlitid : ∀ k id, (k, id) ∈ ra.1.cache →
+              evalNodes S (baseEnv S (doInline true fns st fi a o p as) args) st.cur.nodes id = some (S.lit k) := by
+            intro k id hm
+            rw [evalNodes_other]
+            · exact baseOf_cached S _ _ _ hcok'.nodup k id (by rw [q1]; exact hm)
+            · intro nd hnd hcon
+              rw [cq2, z3] at hm
+              rcases List.mem_append.mp hm with x | x
+              · exact h.sep nd hnd id hcon (by rw [h.cok.inits]; exact List.mem_map_of_mem (f := (·.2)) x)
+              · have := cq3 _ x
+                have := (hold nd hnd).1 id hcon
+                rw [z2] at *
+                omega
+          have hargs := args_vals_ok S st r (evalGraph S st args)
+            (evalNodes S (baseEnv S (doInline true fns st fi a o p as) args) st.cur.nodes) ra.1.cache
+            h.vals h.bnd.handles hA hlitid a ra.2 (by rw [← z1]; exact cq4)
           unfold inlineClones at n1 n2
           obtain ⟨c1, c2, _⟩ := cloneNodes_sim S
-            (autoNodeName st0.cur (nodeCount true st0) f'.name ++ "/") f'.nodes st0 (f'.formals.zip (resolveArgs st0 a).2)
-            (evalGraph S st args) (bindFormals f'.formals ((resolveArgs st0 a).2.map (fun x => x.bind (evalGraph S st args))))
-            (vmapGet_zip_bound f'.formals _ st0.L hact) (rel_formals _ f'.formals _) hssa'
-          have hge := cloneNodes_outs_ge (autoNodeName st0.cur (nodeCount true st0) f'.name ++ "/") f'.nodes st0
-            (f'.formals.zip (resolveArgs st0 a).2)
-          generalize hcl : cloneNodes st0 (f'.formals.zip (resolveArgs st0 a).2)
-            (autoNodeName st0.cur (nodeCount true st0) f'.name ++ "/") f'.nodes = cl at n1 n2 c1 c2 hge
-          have hE : evalGraph S (doInline true fns st fi a o p as) args = evalNodes S (evalGraph S st args) cl.2.2 := by
-            unfold evalGraph baseEnv
-            rw [n1, q1, q3]
+            (autoNodeName ra.1.cur (nodeCount true ra.1) f'.name ++ "/") f'.nodes ra.1 (f'.formals.zip ra.2)
+            (evalNodes S (baseEnv S (doInline true fns st fi a o p as) args) st.cur.nodes)
+            (bindFormals f'.formals (ra.2.map (fun x => x.bind
+              (evalNodes S (baseEnv S (doInline true fns st fi a o p as) args) st.cur.nodes))))
+            (vmapGet_zip_bound f'.formals _ ra.1.L hact) (rel_formals _ f'.formals _) hssa'
+          have hge := cloneNodes_outs_ge (autoNodeName ra.1.cur (nodeCount true ra.1) f'.name ++ "/") f'.nodes ra.1
+            (f'.formals.zip ra.2)
+          generalize hcl : cloneNodes ra.1 (f'.formals.zip ra.2)
+            (autoNodeName ra.1.cur (nodeCount true ra.1) f'.name ++ "/") f'.nodes = cl at n1 n2 c1 c2 hge
+          have hE : evalGraph S (doInline true fns st fi a o p as) args
+              = evalNodes S (evalNodes S (baseEnv S (doInline true fns st fi a o p as) args) st.cur.nodes) cl.2.2 := by
+            unfold evalGraph
+            rw [n1]
             simp [evalNodes, List.foldl_append]
-          have hvals0 : st0.handles.map (fun x => x.bind (evalGraph S st args)) = r.henv := by rw [z1]; exact h.vals
-          have hargs := args_vals_refs S st0 r (evalGraph S st args) hvals0 a h1
-          refine ⟨hb, h.cok.grow q1 q2 q4, by rw [h.nin, q3], ?_, ?_⟩
+          have hL : st.L ≤ ra.1.L := by rw [← z2]; exact w4
+          refine ⟨hb, hcok', by rw [h.nin, q3], ?_, ?_⟩
           · intro nd hnd x hx hcon
-            rw [q2, h.cok.inits] at hcon
+            rw [hcok'.inits] at hcon
             simp only [List.mem_map] at hcon
             obtain ⟨e, he, rfl⟩ := hcon
-            have hlt := h.cok.bound e he
             rw [n1] at hnd
             rcases List.mem_append.mp hnd with y | y
-            · exact h.sep nd y e.2 hx (by rw [h.cok.inits]; exact List.mem_map_of_mem (f := (·.2)) he)
+            · rw [hcache'] at he
+              rcases List.mem_append.mp he with u | u
+              · exact h.sep nd y e.2 hx (by rw [h.cok.inits]; exact List.mem_map_of_mem (f := (·.2)) u)
+              · have := cq3 e u
+                have := (hold nd y).1 e.2 hx
+                rw [z2] at *
+                omega
             · have := hge nd y e.2 hx
-              rw [z2] at this
+              have := cq1.bound e (by rw [← q1]; exact he)
               omega
           · rw [n2, List.map_append, hE]
             congr 1
@@ -1350,18 +1476,13 @@ theorem sim_inline (S : OpSem α) (fns : List Fn) (args : List α) (st : St) (r 
               | none => rfl
               | some i =>
                 simp only [Option.bind_some]
-                exact c2 i (by rw [z2]; exact h.bnd.handles i hx)
+                have hi := h.bnd.handles i hx
+                rw [c2 i (Nat.lt_of_lt_of_le hi hL)]
+                exact hA i hi
             · simp only [callMeaning, evalBody, hf', List.map_map, hfo, ← hargs]
               apply List.map_congr_left
               intro x _
               exact c1 x
-    · have h1' : (!a.all isRef) = true := by simpa using h1
-      have hia : inlineAdapts = false := by
-        cases hx : inlineAdapts with
-        | false => rfl
-        | true => exact absurd (hlit hx) h1
-      simp only [doInline, replayStep, hf, h1', hia, Bool.not_false, Bool.and_self, if_true, Bool.true_or]
-      exact sim_fail S args st r _ h
 
 theorem sim_step (S : OpSem α) (fns : List Fn) (args : List α) (st : St) (r : RSt α)
     (it : Item) (hssa : ∀ f ∈ fns, ∀ n ∈ f.nodes, n.outs.Nodup) (hs : simItem it = true) (h : Sim S args st r) :
@@ -1382,8 +1503,7 @@ theorem sim_step (S : OpSem α) (fns : List Fn) (args : List α) (st : St) (r : 
       simp only [step, doCall, hf, replayStep]
       exact sim_fail S args st r _ h
     | some f => exact sim_call S fns args true st r fi a o as f hf h
-  | inline f a o p as =>
-    exact sim_inline S fns args st r f a o p as hssa (fun hx => by simpa [simItem, hx] using hs) h
+  | inline f a o p as => exact sim_inline S fns args st r f a o p as hssa h
   | beginSub g i => simp [simItem] at hs
   | endSub r d => simp [simItem] at hs
   | output hd n =>
